@@ -115,8 +115,12 @@ def make_problem(g, enc, nobj, n, k):
     wt = g.choice([1.0, 1.0, 2.0, -1.0], nobj) if g.random() < 0.3 else numpy.ones(nobj)
     if enc == "Subset":
         space = rows
-        prob = cls(ebv=ebv, ndecn=k, decn_space=space, decn_space_lower=numpy.repeat(int(rows.min()), k), decn_space_upper=numpy.repeat(int(rows.max()), k),
+        nobounds = g.random() < 0.3     # the bounds of a subset problem are optional: left undefined (None) by the caller
+        prob = cls(ebv=ebv, ndecn=k, decn_space=space, decn_space_lower=None if nobounds else numpy.repeat(int(rows.min()), k),
+                   decn_space_upper=None if nobounds else numpy.repeat(int(rows.max()), k),
                    nobj=nobj, obj_wt=wt, obj_trans=obj_trans, **kw)
+        if nobounds:
+            dcls += "/bounds left undefined"
     else:
         lo, up = BOUNDS[enc]
         ds = numpy.stack([numpy.repeat(lo, n), numpy.repeat(up, n)])
